@@ -34,6 +34,9 @@ class C07(Prop):
 
     def nontrivial(self, case):
         i = case["input"]
+        if i.get("engine") in ("r1", "r2"):
+            recs = i.get("recs") or [r for b in (i.get("batches") or []) for r in b]
+            return any(r[0] for r in recs) and not all(r[0] for r in recs)
         if i.get("engine") == "v1":
             ops = i.get("ops") or []
             return i["size"] > 0 and any(ops) and not all(ops)
@@ -42,20 +45,27 @@ class C07(Prop):
 
     def finding_key(self, case, code):
         i = case["input"]
-        return "window/%s" % i.get("engine")
+        return "%s/%s" % ("routing" if i.get("engine") in ("r1", "r2") else "window", i.get("engine"))
 
     def describe(self, case, code):
-        return "DLQ window decisions of engine %s differ from the property's window rule for %s" % (
+        return "DLQ window/routing behaviour of engine %s differs from the property's rule for %s" % (
             case["input"].get("engine"), case["input"])
 
     def distribution(self, cases):
-        d = {"v1": 0, "v2": 0, "size0": 0, "thr0": 0, "refusals": 0}
+        d = {"v1": 0, "v2": 0, "r1": 0, "r2": 0, "size0": 0, "thr0": 0, "refusals": 0,
+             "routing_stopped": 0, "routing_dlq_write_failures": 0}
         for c in cases:
             i = c["input"]
-            d[i["engine"]] += 1
+            d[i["engine"]] = d.get(i["engine"], 0) + 1
             d["size0"] += i["size"] == 0
             d["thr0"] += i["thr"] == 0
-            d["refusals"] += not all(c["observed"]["decisions"] or [True])
+            o = c["observed"]
+            if "decisions" in o:
+                d["refusals"] += not all(o["decisions"] or [True])
+            else:
+                d["routing_stopped"] += bool(o.get("stopped"))
+                recs = i.get("recs") or [r for b in (i.get("batches") or []) for r in b]
+                d["routing_dlq_write_failures"] += any(r[0] and r[1] for r in recs)
         return d
 
 
